@@ -200,4 +200,96 @@ example : MIL_WF { messages := [⟨.rtc 1, 0, 0, 0, []⟩, ⟨.rtc 77, 0xFFFF, 3
   rcases hm with h | h <;> subst h <;>
     simp [Msg_WF, Ipts_WF, protoIpts, iptsOfSource, TS_CH4, sameKind]
 
+/-! ### review additions (rev1-C04) -/
+
+/-- `MILMsg_roundtrip` with the helper `norm` unfolded: the time stamp, both status words and the data
+    bytes come back; the `length` attribute comes back as the size of the data (NOT as the value the
+    caller may have assigned — `pack` overwrites it) -/
+theorem MILMsg_roundtrip_fields (m t : Msg) (h : Msg_WF m) (hk : sameKind t.ipts m.ipts) :
+    ∃ b, m.pack.2 = .ok b ∧ (Msg.unpack t b).2 = .ok b.length ∧
+      (Msg.unpack t b).1.ipts = m.ipts ∧ (Msg.unpack t b).1.blockstatus = m.blockstatus ∧
+      (Msg.unpack t b).1.gaptimes = m.gaptimes ∧ (Msg.unpack t b).1.message = m.message ∧
+      (Msg.unpack t b).1.length = m.message.length := by
+  obtain ⟨b, h1, h2, _⟩ := MILMsg_roundtrip m t h hk
+  exact ⟨b, h1, by rw [h2], by rw [h2]; rfl, by rw [h2]; rfl, by rw [h2]; rfl, by rw [h2]; rfl, by rw [h2]; rfl⟩
+
+/-- the packet layout with every message in its declarative form (`MIL_pack_layout` is phrased with
+    the helper `msgBytes`; composing with `MILMsg_pack_layout` removes it from the statement) -/
+theorem MIL_pack_layout_spec (p : Packet) (h : MIL_WF p) :
+    p.pack.2 = .ok (Spec.Ch11.milPacket p.ttb (p.messages.map fun m =>
+      Spec.Ch11.milMessage (toSpec m.ipts) m.blockstatus m.gaptimes m.message)) := by
+  have e : p.messages.map msgBytes = p.messages.map (fun m =>
+      Spec.Ch11.milMessage (toSpec m.ipts) m.blockstatus m.gaptimes m.message) := by
+    apply List.map_congr_left
+    intro m hm
+    have h1 := Msg_pack_eq m (h.1 m hm).1
+    have h2 := (MILMsg_pack_layout m (h.1 m hm).1).1
+    rw [h1] at h2
+    exact Except.ok.inj h2
+  rw [← e]
+  exact MIL_pack_layout p h
+
+/-- `MIL_roundtrip` with `norm` unfolded: the decoded list carries, message by message and in order,
+    the same time stamps, block status words, gap-time words and data bytes; every decoded `length`
+    is the size of its data; count and time-tag bits are the encoder's; the codec option is kept -/
+theorem MIL_roundtrip_fields (p t : Packet) (h : MIL_WF p) (ho : t.ipts_source = p.ipts_source) :
+    ∃ b, p.pack.2 = .ok b ∧ (Packet.unpack t b).2 = .ok () ∧
+      (Packet.unpack t b).1.messages.map (fun m => (m.ipts, m.blockstatus, m.gaptimes, m.message)) =
+        p.messages.map (fun m => (m.ipts, m.blockstatus, m.gaptimes, m.message)) ∧
+      (∀ m ∈ (Packet.unpack t b).1.messages, m.length = m.message.length) ∧
+      (Packet.unpack t b).1.msgcount = p.messages.length ∧ (Packet.unpack t b).1.ttb = p.ttb ∧
+      (Packet.unpack t b).1.ipts_source = t.ipts_source := by
+  obtain ⟨b, h1, h2, _⟩ := MIL_roundtrip p t h ho
+  refine ⟨b, h1, by rw [h2], ?_, ?_, by rw [h2], by rw [h2], by rw [h2]⟩
+  · rw [h2]
+    simp [List.map_map, Function.comp_def, norm]
+  · rw [h2]
+    intro m hm
+    obtain ⟨x, _, rfl⟩ := List.mem_map.mp hm
+    rfl
+
+/-- joint witness for `MILMsg_roundtrip` (`h` and `hk` together): a PTP-stamped message decoded into
+    an object that held another PTP time and other data -/
+example : Msg_WF ⟨.ptp 0xFFFFFFFF 999999999, 0xFFFF, 0xFFFF, 7, [1, 2, 3]⟩ ∧
+    sameKind (⟨.ptp 1 2, 5, 6, 7, [9]⟩ : Msg).ipts (⟨.ptp 0xFFFFFFFF 999999999, 0xFFFF, 0xFFFF, 7, [1, 2, 3]⟩ : Msg).ipts := by
+  simp [Msg_WF, Ipts_WF, sameKind]
+
+/-- joint witness for `MIL_roundtrip` (`h` and `ho` together), decoder in a non-trivial prior state:
+    the theorem instantiated on the packet of the `MIL_WF` example above -/
+example : ∃ b, (⟨[⟨.rtc 1, 0, 0, 0, []⟩, ⟨.rtc 77, 0xFFFF, 3, 0, [1, 2, 3]⟩], 2, 3, some 0⟩ : Packet).pack.2 = .ok b ∧
+    Packet.unpack ⟨[⟨.rtc 5, 1, 1, 1, [4]⟩], 99, 1, some 0⟩ b =
+      (⟨[⟨.rtc 1, 0, 0, 0, []⟩, ⟨.rtc 77, 0xFFFF, 3, 3, [1, 2, 3]⟩], 2, 3, some 0⟩, .ok ()) := by
+  obtain ⟨b, h1, h2, _⟩ := MIL_roundtrip
+    (⟨[⟨.rtc 1, 0, 0, 0, []⟩, ⟨.rtc 77, 0xFFFF, 3, 0, [1, 2, 3]⟩], 2, 3, some 0⟩ : Packet)
+    ⟨[⟨.rtc 5, 1, 1, 1, [4]⟩], 99, 1, some 0⟩
+    (by
+      refine ⟨?_, by simp, by simp, by simp, by simp⟩
+      intro m hm
+      simp only [List.mem_cons, List.mem_nil_iff, or_false] at hm
+      rcases hm with h | h <;> subst h <;>
+        simp [Msg_WF, Ipts_WF, protoIpts, iptsOfSource, TS_CH4, sameKind])
+    rfl
+  exact ⟨b, h1, by rw [h2]; rfl⟩
+
+/-- joint witness for `MIL_append_accepted` (`h` on the `fresh`-shaped packet and `ho` together): two
+    PTP-stamped messages, odd and even data sizes -/
+example : ∃ b, (([⟨.ptp 1 2, 0x8000, 1, 0, [1, 2, 3]⟩, ⟨.ptp 1 500, 0, 0xFFFF, 0, [4, 5]⟩] : List Msg).foldl Packet.append
+      (Packet.fresh (some 1))).pack.2 = .ok b ∧
+    (Packet.unpack ⟨[], 9, 2, some 1⟩ b).2 = .ok () ∧
+    (Packet.unpack ⟨[], 9, 2, some 1⟩ b).1.messages =
+      [⟨.ptp 1 2, 0x8000, 1, 3, [1, 2, 3]⟩, ⟨.ptp 1 500, 0, 0xFFFF, 2, [4, 5]⟩] := by
+  obtain ⟨b, h1, h2, h3, _⟩ := MIL_append_accepted (some 1)
+    [⟨.ptp 1 2, 0x8000, 1, 0, [1, 2, 3]⟩, ⟨.ptp 1 500, 0, 0xFFFF, 0, [4, 5]⟩] ⟨[], 9, 2, some 1⟩
+    (by
+      refine ⟨?_, by simp, by simp, by simp [Packet.fresh], by simp⟩
+      intro m hm
+      simp only [List.mem_cons, List.mem_nil_iff, or_false] at hm
+      rcases hm with h | h <;> subst h <;>
+        simp [Msg_WF, Ipts_WF, protoIpts, iptsOfSource, TS_CH4, TS_IEEE1558, sameKind, Packet.fresh])
+    rfl
+  exact ⟨b, h1, h2, by rw [h3]; rfl⟩
+
+/-- why `MIL_WF` excludes the empty list (the quantifier says counts 1..N): the encoder refuses it -/
+example : (Packet.fresh (some 0)).pack.2 = .error .generic := rfl
+
 end Acra.Props.C04
